@@ -83,8 +83,9 @@ def correspondence(ctx):
     sst, sdis = term_check.run_symbols(ctx.seed * 167 + 7, 150 if ctx.tier == "quick" else 1500, MODEL)
     cst, cdis = term_check.run_conv(ctx.seed * 173 + 9, 300 if ctx.tier == "quick" else 4000, MODEL)
     vst, vdis = term_check.run_vars(ctx.seed * 179 + 11, 300 if ctx.tier == "quick" else 4000, MODEL)
-    dis += tdis + sdis + cdis + vdis
-    return {"interval_sequences": tot, "element_condition_programs": len(texts), "equations": eq, "terms": tst, "symbols": sst, "term_conversion": cst, "head_variables": vst,
+    mst, mdis = term_check.run_statements(ctx.seed * 181 + 13, 600 if ctx.tier == "quick" else 8000, MODEL)
+    dis += tdis + sdis + cdis + vdis + mdis
+    return {"interval_sequences": tot, "element_condition_programs": len(texts), "equations": eq, "terms": tst, "statements_as_atom_sequences": mst, "symbols": sst, "term_conversion": cst, "head_variables": vst,
             "sample": {"program": texts[0]}}, dis
 
 # ---- schema vs instantiation
